@@ -418,6 +418,11 @@ class World:
                     (t == STR and z3.is_string_value(s) and z3_string_value(s) == '') or
                     (t == CPS and z3.is_true(z3.simplify(z3.Length(s) == 0)))) and 'flat' in self.specs:
                 return V(CPS, self.specs['flat'].declare()(seq.term))
+            if isinstance(seq, V) and not isinstance(seq.t, TSeq) and t == STR:
+                try:
+                    seq = eng.coerce(seq, TSeq(STR), node)
+                except Unsupported:
+                    pass
             if isinstance(seq, V) and isinstance(seq.t, TSeq) and seq.t.elem == t:
                 f = self.ufunc(f'str.join.{t.name}', t.sort(), seq.t.sort(), t.sort())
                 return V(t, f(s, seq.term))
@@ -814,7 +819,10 @@ class World:
             res = VNone()
         post.env['result'] = res
         gs = list(st.guards)
-        region = eng.spec_bool(c.kf_region, pre) if c.kf_region else None
+        # Known-finding regions: every function is verified for inputs outside the regions of the active known findings
+        # (stated in the evidence). Inside its own proof a callee's postcondition is weakened by its region; for its
+        # callers the region is excluded by that global assumption, so the postcondition is assumed as it stands.
+        region = None
         for e in list(c.ensures) + list(c.defines):
             fact = eng.spec_bool(e, post)
             if region is not None:
